@@ -13,7 +13,7 @@ ASSUME = [
 
 def configs(tier):
     feats = {"views", "head", "restart", "post"}
-    bodies = {"cal": ["X", "X2", "XR", "Z"], "ab": ["K", "K2"], "c2": []}
+    bodies = {"cal": ["X", "X2", "XR", "ZE"], "ab": ["KE", "K2"], "c2": []}  # ZE / KE: characters outside the Basic Multilingual Plane
     props = {"cal": {"displayname": ["d1"]}}
     out = [
         Config(front="wsgi", backend="tree", prefix="/", threshold=0, features=feats, bodies=bodies, props=props, oracles={"C02"}),
